@@ -162,15 +162,17 @@ func propC01(c *Ctx) {
 			return s.Kind == SIface && (strings.HasPrefix(s.Callee, "(ophost/types.BankKeeper).") || strings.HasPrefix(s.Callee, "(ophost/types.CommunityPoolKeeper).")) && !ifaceReads[s.Method]
 		}) {
 			o.Sites++
-			k := fnShort(s.Root()) + "|" + s.Method
-			o.Note(k + " @" + c.W.Pos(s.Pos))
-			if !allowed[k] {
-				o.Fail(c.W.Pos(s.Pos), "funds move outside deposit/finalize/creation-fee: "+s.Callee+" in "+fnShort(s.Root()), nil)
+			for _, r := range eff.OwnerNames(s) {
+				k := r + "|" + s.Method
+				o.Note(k + " @" + c.W.Pos(s.Pos) + attributedNote(s, r))
+				if !allowed[k] {
+					o.Fail(c.W.Pos(s.Pos), "funds move outside deposit/finalize/creation-fee: "+s.Callee+" in "+r+attributedNote(s, r), nil)
+				}
+				if seen[k] {
+					o.Fail(c.W.Pos(s.Pos), "second fund-moving site "+k, nil)
+				}
+				seen[k] = true
 			}
-			if seen[k] {
-				o.Fail(c.W.Pos(s.Pos), "second fund-moving site "+k, nil)
-			}
-			seen[k] = true
 		}
 		for a := range allowed {
 			if !seen[a] {
@@ -432,8 +434,10 @@ func propC01(c *Ctx) {
 			return s.Kind == SIface && strings.HasPrefix(s.Callee, "(ophost/types.AccountKeeper).") && (s.Method == "SetAccount" || s.Method == "NewAccount" || s.Method == "NewAccountWithAddress" || s.Method == "RemoveAccount")
 		}) {
 			o.Sites++
-			if fnShort(s.Root()) != "(ophost/keeper.MsgServer).CreateBridge" {
-				o.Fail(c.W.Pos(s.Pos), s.Method+" in "+fnShort(s.Root()), nil)
+			for _, r := range eff.OwnerNames(s) {
+				if r != "(ophost/keeper.MsgServer).CreateBridge" {
+					o.Fail(c.W.Pos(s.Pos), s.Method+" in "+r+attributedNote(s, r), nil)
+				}
 			}
 		}
 		if o.Sites < 2 {
@@ -573,7 +577,7 @@ func propC10(c *Ctx) {
 			}
 		}
 		c.writersTable("C10.R2", "ophost/keeper.Keeper", "NextL1Sequences", setOf("Set", "Remove", "Clear"),
-			[]string{"(ophost/keeper.Keeper).IncreaseNextL1Sequence", "(ophost/keeper.Keeper).SetNextL1Sequence"})
+			[]string{"(ophost/keeper.Keeper).IncreaseNextL1Sequence", "(ophost/keeper.Keeper).InitGenesis"})
 		eff := c.W.BuildEffects()
 		o3 := c.Ob("C10.R2", "SetNextL1Sequence is called only from InitGenesis")
 		for _, f := range eff.Callers(c.Method(hostKeeper, "Keeper", "SetNextL1Sequence")) {
@@ -708,7 +712,7 @@ func propC10(c *Ctx) {
 		if o.Sites == 0 {
 			o.Fail(c.W.Pos(fn.Pos()), "no TokenPairs.Set reached", nil)
 		}
-		c.writersTable("C10.R4", "ophost/keeper.Keeper", "TokenPairs", setOf("Set", "Remove", "Clear"), []string{"(ophost/keeper.Keeper).SetTokenPair"})
+		c.writersTable("C10.R4", "ophost/keeper.Keeper", "TokenPairs", setOf("Set", "Remove", "Clear"), []string{"(ophost/keeper.MsgServer).InitiateTokenDeposit", "(ophost/keeper.Keeper).InitGenesis"})
 		eff := c.W.BuildEffects()
 		o3 := c.Ob("C10.R4", "callers of SetTokenPair = {InitiateTokenDeposit, InitGenesis}")
 		al := setOf("(ophost/keeper.MsgServer).InitiateTokenDeposit", "(ophost/keeper.Keeper).InitGenesis")
@@ -818,11 +822,11 @@ func propC11(c *Ctx) {
 			for k, i := range dels {
 				o.Sites++
 				a := p.Events[i].Call.Args
-				wantIdx := "req.OutputIndex"
-				if k > 0 {
-					wantIdx = fmt.Sprintf("(req.OutputIndex + %d)", k)
-				}
-				if a[2].Key() != "req.BridgeId" || a[3].Key() != wantIdx {
+				// index of the k-th deletion = req.OutputIndex + k, compared as linear forms so that
+				// `i := idx; i < next; i++` and `off := 0; off < next-idx; off++ ... idx+off` are one shape
+				wantIdx := fmt.Sprintf("req.OutputIndex + %d", k)
+				wantLin := linForm{c: int64(k), k: map[string]int64{"req.OutputIndex": 1}}
+				if a[2].Key() != "req.BridgeId" || !lin(a[3]).equal(wantLin) {
 					o.Fail(c.evPos(&p.Events[i]), fmt.Sprintf("deletion #%d removes (%s, %s), want (req.BridgeId, %s)", k, a[2].Key(), a[3].Key(), wantIdx), c.Dump(p, i))
 				}
 				nx := nextOf(p)
@@ -830,11 +834,7 @@ func propC11(c *Ctx) {
 					o.Fail(c.evPos(&p.Events[i]), "deletion before the next index was loaded", c.Dump(p, i))
 					continue
 				}
-				rel, nf := p.Relation(i, keyIs(wantIdx), keyIs(nx.Key()))
-				if nx.IsConst() {
-					// default next = 1: the guard folds with constants; handled by interval facts
-					rel, nf = p.Relation(i, keyIs(wantIdx), func(t *Term) bool { return t.Key() == nx.Key() })
-				}
+				rel, nf := p.RelationLin(i, a[3], nx)
 				if nf == 0 || rel != rLT {
 					o.Fail(c.evPos(&p.Events[i]), fmt.Sprintf("deletion #%d of index %s not guarded by index < next (relation %s)", k, wantIdx, relString(rel)), c.Dump(p, i))
 				}
@@ -849,8 +849,8 @@ func propC11(c *Ctx) {
 				continue
 			}
 			// loop exit: req.OutputIndex + m is not < next
-			exitIdx := fmt.Sprintf("(req.OutputIndex + %d)", len(dels))
-			rel, nf := p.Relation(len(p.Events), keyIs(exitIdx), keyIs(nx.Key()))
+			exitT := mk("bin", "+", p.Events[dels[0]].Call.Args[3], intTerm(int64(len(dels))))
+			rel, nf := p.RelationLin(len(p.Events), exitT, nx)
 			if nf == 0 || rel&rLT != 0 {
 				o.Fail(c.W.Pos(fn.Pos()), "loop can exit before reaching the next index (suffix not fully deleted)", c.Dump(p, -1))
 			}
@@ -909,12 +909,12 @@ func propC11(c *Ctx) {
 
 	c.Rule("C11.R3", func() {
 		c.writersTable("C11.R3", "ophost/keeper.Keeper", "NextOutputIndexes", setOf("Set", "Remove", "Clear"),
-			[]string{"(ophost/keeper.Keeper).IncreaseNextOutputIndex", "(ophost/keeper.MsgServer).DeleteOutput", "(ophost/keeper.Keeper).SetNextOutputIndex"})
+			[]string{"(ophost/keeper.Keeper).IncreaseNextOutputIndex", "(ophost/keeper.MsgServer).DeleteOutput", "(ophost/keeper.Keeper).InitGenesis"})
 		eff := c.W.BuildEffects()
-		o := c.Ob("C11.R3", "SetNextOutputIndex is called only from InitGenesis; IncreaseNextOutputIndex only from ProposeOutput")
+		o := c.Ob("C11.R3", "SetNextOutputIndex (a plain setter) is used only by InitGenesis and the DeleteOutput rollback (whose value C11.R2 decides); IncreaseNextOutputIndex only from ProposeOutput")
 		for _, f := range eff.Callers(c.Method(hostKeeper, "Keeper", "SetNextOutputIndex")) {
 			o.Sites++
-			if fnShort(f) != "(ophost/keeper.Keeper).InitGenesis" {
+			if fnShort(f) != "(ophost/keeper.Keeper).InitGenesis" && fnShort(f) != "(ophost/keeper.MsgServer).DeleteOutput" {
 				o.Fail(c.W.Pos(f.Pos()), "SetNextOutputIndex called from "+fnShort(f), nil)
 			}
 		}
